@@ -108,6 +108,13 @@ func (s *Sync) namespacedClient(peerInfo peer.AddrInfo, rtOpts ...libp2phttp.Rou
 		if r := recover(); r != nil {
 			err = fmt.Errorf("cannot use libp2phttp protocol information from peer: %v", r)
 		}
+		if err != nil {
+			// The host remembers what the peer answered before it looks
+			// the protocol up. If no client could be made from it, it is
+			// forgotten, so that the peer is asked again next time: the
+			// answer may have been damaged on the way.
+			s.clientHost.RemovePeerMetadata(peerInfo.ID)
+		}
 	}()
 	return s.clientHost.NamespacedClient(ProtocolID, peerInfo, rtOpts...)
 }
